@@ -299,9 +299,15 @@ def replay_case(arg):
                 tagm = 'iorb' + key
                 pm = chi.PredictiveModel(probes.ProbeMech(rec['ndim'] - 1, 1, tag=tagm), chi.GaussianErrorModel())
                 ppm = chi.PosteriorPredictiveModel(pm, ds, param_map=pmap)
+                # (every other case the dataset is read through an AVERAGED model over two posterior predictive models: the
+                # individual that is asked for is the individual whose columns are selected, there too)
+                reader = ppm
+                if int(key, 16) % 2 == 1:
+                    reader = chi.PAMPredictiveModel([ppm, chi.PosteriorPredictiveModel(pm, ds, param_map=pmap)], weights=[1, 1])
+                    cnt['read_back_through_an_averaged_model'] = 1
                 for i, uid in enumerate(rec['uniqueids']):
                     probes.clear(tagm)
-                    ppm.sample([1.0, 2.0], n_samples=2, individual=uid, seed=1)
+                    reader.sample([1.0, 2.0], n_samples=2, individual=uid, seed=1)
                     sims = [e for e in probes.log_of(tagm) if e[0] == 'simulate']
                     if len(sims) != 2:
                         fail('ReadBack', 'n_simulations', dict(got=len(sims)))
